@@ -249,10 +249,22 @@ def leanchecker(module):
 # --------------------------------------------------------------------------- findings / evidence
 
 def load_known():
+    """known_findings.json plus per-property files known_findings.d/Cxx.json (committed; never
+    written at run time)."""
+    out = {"findings": [], "fixed": []}
     p = os.path.join(VERIF, "known_findings.json")
-    if not os.path.exists(p):
-        return {"findings": [], "fixed": []}
-    return json.load(open(p))
+    if os.path.exists(p):
+        d = json.load(open(p))
+        out["findings"] += d.get("findings", [])
+        out["fixed"] += d.get("fixed", [])
+    dd = os.path.join(VERIF, "known_findings.d")
+    if os.path.isdir(dd):
+        for f in sorted(os.listdir(dd)):
+            if f.endswith(".json"):
+                d = json.load(open(os.path.join(dd, f)))
+                out["findings"] += d.get("findings", [])
+                out["fixed"] += d.get("fixed", [])
+    return out
 
 
 class Report:
